@@ -376,6 +376,16 @@ def check_rehash(ctx, prog):
                     return 'linked'
                 if st.startswith('pending') and lhs.get('k') == 'var' and lhs.get('id') == int(st.split(':')[1]) and rhs.get('k') == 'var' and rhs.get('id') in succ_of:
                     problems.append(e.get('l', 0))
+            if e.get('k') == 'call' and st.startswith('pending') and e.get('fn'):
+                # linking delegated to a helper: the pending node is passed to a function that stores that parameter into a link
+                pend = int(st.split(':')[1])
+                for j, a in enumerate(e.get('a', [])):
+                    if strip(a).get('k') == 'var' and strip(a).get('id') == pend:
+                        for g in prog.fn(e['fn'], e.get('sig')):
+                            if g.get('body') and j < len(g['params']):
+                                pid = g['params'][j]['id']
+                                if any(x.get('k') == 'bin' and x.get('op') == '=' and is_link_lhs(x['x']) and strip(x['y']).get('k') == 'var' and strip(x['y']).get('id') == pid for x in fn_exprs(g)):
+                                    return 'linked'
             return st
         reached, _ = cfgm.dataflow(cfg, 'start', step)
         ctx.evaluations += sum(len(v) for v in reached.values())
@@ -488,6 +498,15 @@ def check_map(ctx, prog):
                     if cc.get('k') != 'bin' or const_val(cc['y']) != 0 or strip(cc['x']).get('id') not in idx_vars:
                         return False
                     return (cc.get('op') == '>=' and pol is False) or (cc.get('op') == '<' and pol is True)
+                if not dec and pos.get('k') == 'var' and pos.get('id') in idx_vars:
+                    # `i = -i-1; a.insert(i, ..)`: the index variable itself was turned into the insert position just before
+                    order_ = dict((id(x), k_) for k_, x in enumerate(g.order))
+                    re_ = [w_ for w_ in q._writes_to(f, pos['id']) if order_.get(id(w_), 10 ** 9) < order_.get(id(e), -1)]
+                    if len(re_) == 1 and re_[0].get('k') == 'bin' and re_[0].get('op') == '=':
+                        import C01
+                        lf = C01.linear(f, re_[0]['y'], None)
+                        if lf == {pos['id']: -1, 1: -1} and g.of(re_[0]) == g.of(e)[:len(g.of(re_[0]))]:
+                            dec = True
                 guarded = any(kind in ('if', 'after') and absent_guard(c, pol) for c, pol, kind in g.of(e))
                 if not dec:
                     okk, why = False, 'insert position `%s` is not -i-1 with i = indexOf(key)' % pe(pos)
